@@ -82,11 +82,29 @@ class VCtx:
     def bool(self, name):
         return self.p.bool(name)
 
-    def sign(self, name):
-        """ a symbolic signature in {-1, +1} """
+    def sign(self, name, split=True):
+        """
+        A signature in {-1, +1}.  By default the two values are case-split (two paths with a concrete
+        sign each), which keeps every VC linear; split=False keeps it as one symbolic integer.
+        """
         v = self.p.int(name)
+        if not self.symbolic:
+            return v
         self.assume(sym.Or(v == 1, v == -1))
-        return v
+        if not split:
+            return v
+        return 1 if self.interp.truth(v == 1) else -1
+
+    def choice(self, name, options):
+        """ case split over a finite list of concrete options (recorded as an int input) """
+        v = self.p.int(name)
+        if not self.symbolic:
+            return options[v]
+        self.assume(sym.And(v >= 0, v < len(options)))
+        for i in range(len(options) - 1):
+            if self.interp.truth(v == i):
+                return options[i]
+        return options[-1]
 
     def ints(self, stem, n, lo=None, hi=None):
         return tuple(self.int(f"{stem}{i}", lo, hi) for i in range(n))
